@@ -2448,6 +2448,14 @@ hsStateDetermined:
             fragLen += *c; c++;
             if (fragLen != hsLen)
             {
+                if (fragLen == 0)
+                {
+                    /* A fragment without content contributes nothing to the
+                       reassembly; recorded in fragHeaders it would make
+                       dtlsHsHashFragMsg loop forever (nextOffset never
+                       advances).  Ignore it. */
+                    return MATRIXSSL_SUCCESS;
+                }
 /*
                 Have a fragmented message here.  Allocate if first time
                 seen and assign msn.  Can only deal with single fragmented
